@@ -19,6 +19,7 @@ startsf = z3.Function('startsf', Str, z3.BoolSort())
 numstr = z3.Function('numstr', BV32, Str); fstr = z3.Function('fstr', BV32, Str)       # the numeral of k, "f" + the numeral of k
 numinv = z3.Function('numinv', Str, BV32); finv = z3.Function('finv', Str, BV32)
 starts0 = z3.Function('starts0', Str, z3.BoolSort())
+trimf = z3.Function('trimf', Str, Str)            # the text without its leading run of 'f' characters (str::trim_start_matches('f'))
 kind = z3.Function('kind', Str, z3.BitVecSort(2))                                      # 0 numeral, 1 f+numeral, 2 any other text
 def string_axioms():
     k = z3.BitVec('ax_k', 32)
@@ -49,6 +50,9 @@ def c17_parse(ex, c, args, m):
     if s.kind == 'tail':
         if ex.decide(kind(s.x) == 1): return ok(finv(s.x))
         return err(Opaque('ParseIntError'))
+    if s.kind == 'trimf':      # a text without its leading f's: a numeral or not - nothing is known beyond trimf(fstr(k)) = numstr(k)
+        if ex.decide(kind(trimf(s.x)) == 0): return ok(numinv(trimf(s.x)))
+        return err(Opaque('ParseIntError'))
     return err(Opaque('ParseIntError'))
 @M.add(r'^<u32 as ToString>::to_string$', front=True)
 def c17_u32_to_string(ex, c, args, m):
@@ -64,6 +68,7 @@ def c17_str_eq(ex, c, args, m):
         if b.kind == 'fnum': return z3.BoolVal(False)
         if b.kind == 'text': return numstr(a.x) == b.x
         if b.kind == 'tail': return b.x == fstr(a.x)          # "f" + numeral(k) is exactly fstr(k)
+        if b.kind == 'trimf': return numstr(a.x) == trimf(b.x)
     if a.kind == b.kind and a.kind in ('text', 'fnum'): return a.x == b.x
     if {a.kind, b.kind} == {'text', 'fnum'}: return (a.x if a.kind == 'text' else b.x) == fstr(b.x if b.kind == 'fnum' else a.x)
     raise Unsupported('string comparison %s / %s' % (a.kind, b.kind))
@@ -76,11 +81,22 @@ def c17_starts(ex, c, args, m):
     if pat == '0':      # a canonical numeral starts with 0 only if it is "0"; an f-numeral never does; unknown for other text
         if s.kind == 'num': return s.x == 0
         if s.kind == 'fnum': return z3.BoolVal(False)
+        if s.kind == 'trimf': return starts0(trimf(s.x))
         return starts0(s.x) if s.kind == 'text' else z3.And(kind(s.x) == 1, z3.Or(finv(s.x) == 0, s.x != fstr(finv(s.x))))
     if pat != 'f': raise Unsupported('starts_with(%r) on an abstract name' % pat)
     if s.kind == 'num': return z3.BoolVal(False)
     if s.kind == 'fnum': return z3.BoolVal(True)
     return startsf(s.x)
+@M.add(r'^core::str::<impl str>::trim_start_matches::<', front=True)
+def c17_trim_start(ex, c, args, m):
+    s = S(args[0])
+    if not isinstance(s, SV): return NotImplemented
+    pat = S(args[1]); pat = chr(pat) if isinstance(pat, int) else (chr(conc(pat)) if z3.is_expr(pat) else str(pat))
+    if pat != 'f': raise Unsupported('trim_start_matches(%r) on an abstract name' % pat)
+    if s.kind == 'num': return s
+    if s.kind == 'fnum': return SV('num', s.x)
+    if s.kind == 'text': return SV('trimf', s.x) if ex.decide(startsf(s.x)) else s
+    raise Unsupported('trim_start_matches on a ' + s.kind)
 @M.add(r'^<str as Index<std::ops::RangeFrom<usize>>>::index$', front=True)
 def c17_tail(ex, c, args, m):
     s = S(args[0])
@@ -313,6 +329,15 @@ def run_variant(overflow, P):
             if p['kind'] == 'panic': P.prove('%s named_alias%d:no_panic[%s]' % (tag, form, p['result']['msg'][:40]), ha, z3.Not(z3.And(*pc))); continue
             r, t = p['result']
             P.prove('%s named_alias%d:distinct_names_distinct_slots' % (tag, form), ha + pc, r.f[0] != slot_of(ka))
+    # ---- named(text) where the text starts with f but is NOT f+numeral (e.g. "ff3", "fx"): whatever the code strips from it, the name is an interned one -
+    # it must not end up as the fresh-class slot of another name ($ff3 is not $f3)
+    kt = z3.BitVec('k_t', 32)
+    h2 = inv(idx, vec, mp, issued) + [kind(s0) == 2, startsf(s0), z3.ULT(kt, 1 << 29), z3.Implies(kind(trimf(s0)) == 0, z3.And(numinv(trimf(s0)) == kt, trimf(s0) == numstr(kt)))]
+    for p in ex.explore(entry_t):
+        pc = p['pc']
+        if p['kind'] == 'panic': P.prove('%s named_alias2:no_panic[%s]' % (tag, p['result']['msg'][:40]), h2, z3.Not(z3.And(*pc))); continue
+        r, t = p['result']
+        P.prove('%s named_alias2:distinct_names_distinct_slots' % tag, h2 + pc, z3.URem(r.f[0], 4) == 2)
     # ---- display / parse round trip
     slv = z3.BitVec('slot_rt', 32)
     def entry_rt(ex_):
@@ -343,6 +368,7 @@ def native_script(model, obligation=''):
     elif 'named_f' in obligation: ops.append(('named', 'f%d' % int(model.get('k_f', '0'))))
     elif 'named_alias0' in obligation: ops.append(('named', '0%d' % int(model.get('k_a', '0')))); ops.append(('named', '%d' % int(model.get('k_a', '0'))))
     elif 'named_alias1' in obligation: ops.append(('named', 'f0%d' % int(model.get('k_a', '0')))); ops.append(('named', 'f%d' % int(model.get('k_a', '0'))))
+    elif 'named_alias2' in obligation: ops.append(('named', 'ff%d' % int(model.get('k_t', '0')))); ops.append(('named', 'f%d' % int(model.get('k_t', '0'))))
     elif 'roundtrip' in obligation:
         v = int(model.get('slot_rt', '0'))
         if v % 4 == 0: ops.append(('numeric', str(v // 4)))
